@@ -28,6 +28,8 @@ Inductive hop :=
 | HStage (req : list (path * digest)) (srcs : list (option path)) (sigs : list sigt)
          (obs : option (list path))
 | HRecv (t : transmission) (obs : recv_res)
+| HRecvF (t : transmission) (obs : recv_res)   (* the Commit this Receive performs fails (flush error):
+                                                   the receiver moves on, nothing is stored *)
 | HFinal
 | HTrans (plan : list item) (before after : files) (installed : list bool)
          (missing : bool) (nproblems : nat)
@@ -91,6 +93,11 @@ Fixpoint walk (x : session) (hs : list hop) : bool * bool :=
       | HRecv tr obs =>
           let '(x', r) := sstep H mx x (SRecv tr true) in
           let '(b1, b2) := walk x' t in
+          (negb (match r with XRecv a => recv_res_eqb a obs | _ => false end) || b1, b2)
+      | HRecvF tr obs =>
+          let '(x', r) := sstep H mx x (SRecv tr true) in
+          let x'' := {| sroot := sroot x'; sstore := sstore x; srecv := srecv x' |} in
+          let '(b1, b2) := walk x'' t in
           (negb (match r with XRecv a => recv_res_eqb a obs | _ => false end) || b1, b2)
       | HFinal =>
           walk (fst (sstep H mx x SFinal)) t
